@@ -35,6 +35,8 @@ class Ctx:
         self.consts = consts            # set of constant names of the method file
         self.dim = dim
         self.nat_vars = set(nat_vars) | {dim}
+        # names that are booleans in the source (`if last { xend } else { x + h }`)
+        self.bool_vars = {"last"}
         self.vec_vars = set(vec_vars)
         self.mat_vars = set(mat_vars)
         self.blocks = blocks or {}      # e.g. {'cont': 5}  -> cont0..cont4
@@ -498,6 +500,8 @@ class Emitter:
                 params.append("(%s : α)" % nm)
             elif kind == "nat":
                 params.append("(%s : Nat)" % nm)
+            elif kind == "bool":
+                params.append("(%s : Bool)" % nm)
             elif kind == "vec":
                 params.append("(%s : Vector α %s)" % (nm, ctx.dim))
             elif kind == "mat":
